@@ -205,10 +205,12 @@ prop("C15",
                 "filter state and token within a bound (queue of <= 2 held tokens, <= 2 attributes): every token is passed on "
                 "once and in order, the synthetic <meta charset> is inserted exactly when head ends (or <head/> is expanded) "
                 "without a declaration, and only charset= / http-equiv content= values of meta tags are rewritten, to the "
-                "output encoding -- reported as bounded stand-in, not counted as proved.",
+                "output encoding -- reported as bounded stand-in, not counted as proved. Proved for all attribute values: the "
+                "parser's InHeadPhase.startTagMeta changes the encoding exactly when the declaration counts (tentative only; "
+                "charset wins; content only with http-equiv = content-type ignoring case) against an abstract stream.",
      level_note="Trusted: pyvc, z3, CPython codecs. The consumer side (the bytes, parsed with no hints, are decoded with the "
-                "declared encoding and give the same tree) needs C06's prescan and C01/C05 and is not decided; encodings that "
-                "emit a BOM per piece (utf-16) are a known finding.",
+                "declared encoding and give the same tree) needs C06's prescan and C01/C05 and is not decided. Observed while "
+                "reading and outside every obligation here: utf-16 output gets a BOM per encoded piece.",
      not_decided=["decode side: prescan finds the declaration; same tree (C06/C01)", "serialize() prologue (filter applied iff encoding and inject_meta_charset)"],
      explanation="encode handler ground-checked on every code point; filter loop body bounded")
 
